@@ -3,6 +3,7 @@ package main
 // C09 (decoder totality) and C10 (isolation) generators.
 
 import (
+	"crypto/aes"
 	"encoding/base64"
 	"encoding/json"
 	"fmt"
@@ -43,6 +44,30 @@ func (g *Gen) rawOrMutated(reg []regEntry, i int) []byte {
 		}
 		return b
 	}
+}
+
+// extremal byte strings of length l
+func extremal(l int) [][]byte {
+	mk := func(fill byte) []byte {
+		b := make([]byte, l)
+		for i := range b {
+			b[i] = fill
+		}
+		return b
+	}
+	out := [][]byte{mk(0), mk(0xff)}
+	if l > 0 {
+		for _, t := range []byte{1, 2, 3, 0x80, 0xff} {
+			b := mk(0)
+			b[l-1] = t
+			c := mk(0)
+			c[0] = t
+			d := mk(0xff)
+			d[l-1] = t
+			out = append(out, b, c, d)
+		}
+	}
+	return out
 }
 
 func genC09(g *Gen) {
@@ -150,6 +175,43 @@ func genC09(g *Gen) {
 				b[15] = byte(k % 4)
 			}
 			g.add("cflistdec " + hx(b))
+		}
+	}
+	// extremal byte strings (all zero, all 0xff, one distinguished first / last byte) for the fixed-layout decoders:
+	// CFList of every length, and join-accept plaintexts (the ciphertext is made with the inverse block operation, so that
+	// DecryptJoinAcceptPayload sees exactly these bytes)
+	for l := 0; l <= 33; l++ {
+		for _, b := range extremal(l) {
+			g.add("cflistdec " + hx(b))
+		}
+	}
+	for _, l := range []int{16, 32} {
+		for _, pt := range extremal(l) {
+			k := r.Bytes(16)
+			blk, _ := aes.NewCipher(k)
+			ct := make([]byte, l)
+			for i := 0; i < l; i += 16 {
+				blk.Decrypt(ct[i:i+16], pt[i:i+16])
+			}
+			g.addf("rawja %s %s", hx(k), hx(append([]byte{0x20}, ct...)))
+		}
+	}
+	for up := 0; up < 2; up++ {
+		for l := 1; l <= 20; l++ {
+			for _, b := range extremal(l) {
+				g.addf("stream %d %s", up, hx(b))
+			}
+		}
+	}
+	// every exported sub-structure decoder, called directly with every short length
+	for _, kind := range subDecoderNames {
+		for l := 0; l <= 34; l++ {
+			for _, b := range extremal(l) {
+				g.addf("subdec %s %d %s", kind, l%2, hx(b))
+			}
+			for k := 0; k < g.scale(2, 40); k++ {
+				g.addf("subdec %s %d %s", kind, k%2, hx(r.Bytes(l)))
+			}
 		}
 	}
 	// ---- application layer: the four command decoders, both directions ----
